@@ -15,6 +15,8 @@ Decided clauses:
         public ISA-specific functions exist only in that unit; in the CPU-feature detection the
         AVX / AVX2 / AVX-512 flags are set only under the CPUID test and the XGETBV (OS state) test,
         AVX2 only under AVX, AVX-512 only under AVX2; accessors return their own field.
+  R10.4 contradiction rules on the limb code of every alternative backend: no identically-zero carry
+        (E12 known-bits) and no branch-free select mixing unrelated values.
 NOT decided: byte-identity of results across backends / build configurations (equivalence of
 implementations).
 """
@@ -354,6 +356,19 @@ def run(ctx, chk):
                 fl, " and the XGETBV OS-state test" if fl != "avx2" else "", " and has_%s" % low if low else ""), not why,
                 loc=det.loc(e.iid), detail="; ".join(why), path=p if why else None, key="R10.3-os has_%s" % fl)
     chk.floor("R10.3-os", "non-zero stores to the AVX-family flags on detection paths", nset, 3)
+
+    # ---- R10.4 contradiction rules on the limb code of the alternative backends ----------------------------------------
+    # "the same bytes whichever implementation is in use" cannot be decided as an equivalence; what can be is that no backend
+    # of a multi-backend primitive contains a cut carry chain (a shift / mask that is identically zero) or a branch-free
+    # select that mixes unrelated values - the two defect shapes that make one backend differ from its siblings only for
+    # inputs of probability ~2^-128 (Poly1305 final reduction, field-element freeze).
+    from .. import knownbits
+    BACKEND_UNITS = ("crypto_onetimeauth/poly1305/", "crypto_scalarmult/curve25519/", "crypto_generichash/blake2b/ref/blake2b-compress",
+                     "crypto_stream/", "crypto_pwhash/argon2/argon2-fill-block", "crypto_shorthash/")
+    knownbits.dead_carry_rule(prog, chk, "R10.4", BACKEND_UNITS,
+                              allowed=[("_sodium_scalarmult_curve25519_sandy2x_fe_frombytes",
+                                        "sandy2x decoder: h9 has 25 bits by construction, `carry9 = h9 >> 25` is zero by design")], floor=60)
+    knownbits.select_idiom_rule(prog, chk, "R10.4", BACKEND_UNITS, floor=3)
 
 
 def all_and(t):
